@@ -92,6 +92,18 @@ class Module:
             elif isinstance(node, ast.AnnAssign) and isinstance(node.target, ast.Name) and node.value is not None:
                 self.globals[node.target.id] = node.value
         self._index_body(self.tree.body, prefix=self.name, cls=None, parent=None)
+        # lambdas held in module-level tables (NAME = {"key": lambda ...}) are functions of the module too
+        for gname, gval in self.globals.items():
+            k = 0
+            for n in ast.walk(gval):
+                if isinstance(n, ast.Lambda):
+                    k += 1
+                    qq = f"{self.name}.<{gname}>.<lambda{k}>"
+                    if qq not in self.funcs and not any(f.node is n for f in self.funcs.values()):
+                        sub = FuncInfo(qq, "<lambda>", n, self, cls=None, parent=None)
+                        self._fill_locals(sub)
+                        self.funcs[qq] = sub
+                        self._index_nested(n, qq, sub)
 
     def _index_body(self, body, prefix, cls, parent):
         for node in body:
